@@ -1,3 +1,6 @@
+#include <algorithm>
+#include <climits>
+
 #include "VM/include/program.hpp"
 #include "VM/include/vm.hpp"
 
@@ -112,10 +115,13 @@ bool VM::executeSingle() {
       // i.parameters.add.source << " + " << i.parameters.add.constant <<
       // std::endl;
       WordIndex base = this->stack.back().data_start;
+      // widen before adding so the sum cannot overflow, then saturate to the
+      // word range [0, INT_MAX]
+      long long sum =
+          (long long)this->data[base + i.parameters.add.source] +
+          i.parameters.add.constant;
       this->data[base + i.parameters.add.target] =
-          std::max(this->data[base + i.parameters.add.source] +
-                       i.parameters.add.constant,
-                   0);
+          (Word)std::clamp<long long>(sum, 0, INT_MAX);
       this->instruction_pointer++;
       break;
     }
